@@ -1,6 +1,6 @@
 use crate::{GameServer, META_STATE};
 use futures_util::{StreamExt, TryStreamExt};
-use kube::runtime::watcher::Config;
+use kube::runtime::watcher::{Config, Event};
 use kube::runtime::{WatchStreamExt, watcher};
 use kube::{Api, Client};
 use passage_adapters::discovery::DiscoveryAdapter;
@@ -46,26 +46,26 @@ impl AgonesDiscoveryAdapter {
         };
 
         // create the watch stream
-        let mut stream = watcher(servers, watch_config)
-            .default_backoff()
-            .applied_objects()
-            .boxed();
+        let mut stream = watcher(servers, watch_config).default_backoff().boxed();
 
         // start listener
         let _inner = Arc::clone(&inner);
         let _token = token.clone();
         tokio::spawn(async move {
             info!("starting game server watcher");
+            // the game servers reported while the watcher (re-)lists all objects, they replace the cache once the
+            // listing is complete, such that game servers that disappeared in the meantime are no longer offered
+            let mut listing: Vec<Target> = Vec::new();
             loop {
                 // get next server update
-                let maybe_server = tokio::select! {
+                let maybe_event = tokio::select! {
                     biased;
                     _ = _token.cancelled() => break,
-                    maybe_server = stream.try_next() => maybe_server,
+                    maybe_event = stream.try_next() => maybe_event,
                 };
 
-                let server = match maybe_server {
-                    Ok(Some(server)) => server,
+                let event = match maybe_event {
+                    Ok(Some(event)) => event,
                     Ok(None) => break,
                     Err(err) => {
                         warn!(err = ?err, "error while watching game servers");
@@ -73,38 +73,72 @@ impl AgonesDiscoveryAdapter {
                     }
                 };
 
-                // map to target
-                let target: Target = match server.try_into() {
-                    Ok(target) => target,
-                    Err(err) => {
-                        warn!(err = ?err, "error while converting game server to target");
-                        continue;
+                match event {
+                    Event::Apply(server) => {
+                        let mut inner = _inner.write().await;
+                        apply_server(&mut inner, server);
                     }
-                };
-
-                // if ready, replace or push
-                let mut inner = _inner.write().await;
-                let state = target.meta.get(META_STATE).cloned().unwrap_or_default();
-                if state == "Ready" || state == "Allocated" {
-                    info!(uid = target.identifier, "adding game server to cache");
-                    let found = inner.iter_mut().find(|i| i.identifier == target.identifier);
-                    match found {
-                        Some(found) => *found = target,
-                        None => inner.push(target),
+                    Event::Delete(server) => {
+                        if let Some(identifier) = &server.metadata.name {
+                            info!(uid = identifier, "removing deleted game server from cache");
+                            let mut inner = _inner.write().await;
+                            remove_target(&mut inner, identifier);
+                        }
                     }
-                    continue;
-                }
-
-                // remove
-                info!(uid = target.identifier, "removing game server from cache");
-                let found = inner.iter().position(|i| i.identifier == target.identifier);
-                if let Some(found) = found {
-                    inner.swap_remove(found);
+                    Event::Init => listing.clear(),
+                    Event::InitApply(server) => apply_server(&mut listing, server),
+                    Event::InitDone => {
+                        let mut inner = _inner.write().await;
+                        *inner = std::mem::take(&mut listing);
+                    }
                 }
             }
         });
 
         Ok(Self { inner, token })
+    }
+}
+
+/// Brings the cache up to date with the most recently observed version of a game server: a game server that is
+/// ready (or allocated) is added or replaced, any other game server is removed.
+fn apply_server(cache: &mut Vec<Target>, server: GameServer) {
+    let name = server.metadata.name.clone();
+
+    // map to target
+    let target: Target = match server.try_into() {
+        Ok(target) => target,
+        Err(err) => {
+            warn!(err = ?err, "error while converting game server to target");
+            // a game server that can no longer be converted must not be offered with its outdated data
+            if let Some(identifier) = name {
+                remove_target(cache, &identifier);
+            }
+            return;
+        }
+    };
+
+    // if ready, replace or push
+    let state = target.meta.get(META_STATE).cloned().unwrap_or_default();
+    if state == "Ready" || state == "Allocated" {
+        info!(uid = target.identifier, "adding game server to cache");
+        let found = cache.iter().position(|i| i.identifier == target.identifier);
+        match found {
+            Some(found) => cache[found] = target,
+            None => cache.push(target),
+        }
+        return;
+    }
+
+    // remove
+    info!(uid = target.identifier, "removing game server from cache");
+    remove_target(cache, &target.identifier);
+}
+
+/// Removes the target with the supplied identifier from the cache (if it is present).
+fn remove_target(cache: &mut Vec<Target>, identifier: &str) {
+    let found = cache.iter().position(|i| i.identifier == identifier);
+    if let Some(found) = found {
+        cache.swap_remove(found);
     }
 }
 
